@@ -59,7 +59,9 @@ def main(tier_: str) -> int:
             tid = 0
             for name, periods in MPS_DEFS.items():
                 for mode in ('vod', 'live'):
-                    for qs in (['depth=60'] if tier_ == 'quick' else ['depth=60', 'depth=20&abr=0', 'depth=100&base=0']):
+                    # with a DRM selection a Period over a stream without encrypted files (tears) falls back to its clear files
+                    for qs in (['depth=60'] + (['depth=60&drm=playready'] if name in ('mpsa', 'mpsc') else []) if tier_ == 'quick'
+                               else ['depth=60', 'depth=20&abr=0', 'depth=100&base=0', 'depth=60&drm=playready', 'depth=60&drm=all']):
                         for now in (nows if mode == 'live' else nows[:1]):
                             tid += 1
                             da.clock.set(now)
@@ -100,6 +102,11 @@ def main(tier_: str) -> int:
                                 for adp in p['adaptation_sets']:
                                     for rep in adp['representations'][:1 if tier_ == 'quick' else 3]:
                                         tm = rep['template']
+                                        if not (da.blob_folder / pdef['stream'] / f"{rep['id']}.mp4").exists():
+                                            ri0 = c.get(path_of(urljoin(rep['base'], M.fill_template(tm['initialization'], rep['id'], rep['bandwidth'])))) if tm else None
+                                            lines.append({'tid': tid, 'ev': 'foreign_rep', 'url': url, 'period': p['id'], 'rep': rep['id'], 'mode': mode,
+                                                          'stream': pdef['stream'], 'init': ri0.status_code if ri0 is not None else 0})
+                                            continue
                                         sf = stored(da.blob_folder / pdef['stream'] / f"{rep['id']}.mp4")
                                         if tm is None or '$Number$' not in (tm.get('media') or ''):
                                             continue
@@ -143,7 +150,7 @@ def main(tier_: str) -> int:
             out.add(Violation('C12', v['clause'], case))
         reps = [x for x in lines if x['ev'] == 'rep']
         mpds = [x for x in lines if x['ev'] == 'mpd']
-        other = [x for x in lines if x['ev'] not in ('rep', 'mpd')]
+        other = [x for x in lines if x['ev'] not in ('rep', 'mpd', 'foreign_rep')]
         if len(reps) < 10 or len(mpds) < 6:
             raise MachineryFailure(f'too few walks: {len(reps)} reps, {len(mpds)} manifests; {other[:3]}')
         out.coverage.update({
